@@ -31,6 +31,16 @@ var cur struct {
 	codec    string // which body decoder fiber selected (recorded by the instrumented decoders)
 }
 
+// sent records what the client wrote on the connection for the current case.
+var sent strings.Builder
+
+type teeConn struct{ net.Conn }
+
+func (c teeConn) Write(p []byte) (int, error) {
+	sent.Write(p)
+	return c.Conn.Write(p)
+}
+
 type env struct {
 	app    *fiber.App
 	ln     *fasthttputil.InmemoryListener
@@ -88,8 +98,20 @@ func wireOf(c fiber.Ctx) string {
 		return gen.Hex(sortedCookie(string(req.Header.Peek("Cookie"))))
 	default:
 		ct := string(req.Header.ContentType())
-		if i := strings.IndexAny(ct, "; "); i >= 0 && cur.source == "multipart" {
-			ct = ct[:i] // the boundary is random
+		if cur.source == "multipart" {
+			// The boundary is random: the model takes it from here (a parameter) and predicts the body.
+			// The body is what the client wrote on the connection (the server pre-parses a multipart
+			// body and Request.Body() would re-marshal it from a Go map, in any order).
+			body := ""
+			if i := strings.Index(sent.String(), "\r\n\r\n"); i >= 0 {
+				body = sent.String()[i+4:]
+			}
+			// length and a rolling checksum of the body (the bodies are large; the model computes the same)
+			h := uint64(0)
+			for i := 0; i < len(body); i++ {
+				h = (h*257 + uint64(body[i]) + 1) % 1000000007
+			}
+			return fmt.Sprintf("%s:%d.%d", gen.Hex(ct), len(body), h)
 		}
 		return gen.Hex(ct)
 	}
@@ -162,12 +184,19 @@ func newEnv(split bool) *env {
 	app.All("/*", handler)
 	ln := fasthttputil.NewInmemoryListener()
 	go func() { _ = app.Listener(ln, fiber.ListenConfig{DisableStartupMessage: true}) }()
-	cl := client.New().SetDial(func(string) (net.Conn, error) { return ln.Dial() })
+	cl := client.New().SetDial(func(string) (net.Conn, error) {
+		c, err := ln.Dial()
+		if err != nil {
+			return nil, err
+		}
+		return teeConn{c}, nil
+	})
 	return &env{app: app, ln: ln, client: cl, h: app.Handler()}
 }
 
 func resetCur(source string, auto bool, target string) {
 	cur.source, cur.auto, cur.target = source, auto, target
+	sent.Reset()
 	cur.ran, cur.wire, cur.dec, cur.err, cur.errCode, cur.panicked, cur.codec = false, "-", "-", false, 0, "", "-"
 }
 
